@@ -1229,3 +1229,30 @@ func BoolCmpNamed(a B) B {
 	var t B = true
 	return a != t || a == false
 }
+
+// ---- spread arguments of named slice types, nil spread ----
+
+type intList []int
+
+func sumList(base int, xs ...int) int {
+	for _, x := range xs {
+		base += x
+	}
+	return base
+}
+
+func SpreadNamed(a, b int) int {
+	l := intList{a, b}
+	return sumList(1, l...)
+}
+
+func SpreadNil(a int) int {
+	return sumList(a, nil...) + len(append([]int(nil), intList{a}...))
+}
+
+func SpreadAppendNamed(a int) int {
+	var dst []int
+	src := intList{a, a + 1}
+	dst = append(dst, src...)
+	return len(dst)*10 + dst[1]
+}
